@@ -80,8 +80,14 @@ func newRig(keyIdxs ...int) (*rig, error) {
 // newRigGated builds the bus and attaches the transport controllers, but their transports are not
 // constructed until release() is called (requests can be registered "during start-up").
 func newRigGated(keyIdxs ...int) (*rig, func() error, error) {
+	return newRigGatedOpt(false, keyIdxs...)
+}
+
+// newRigGatedOpt: with anon the transport controllers are constructed without a peer id (NewController(..., "", ...)):
+// the controller then takes whichever identity the bus provides, which is well defined with a single local identity.
+func newRigGatedOpt(anon bool, keyIdxs ...int) (*rig, func() error, error) {
 	gate := make(chan struct{})
-	r, err := newRigWithGate(gate, keyIdxs...)
+	r, err := newRigWithGate(gate, anon, keyIdxs...)
 	if err != nil {
 		return nil, nil, err
 	}
@@ -109,7 +115,7 @@ func newRigGated(keyIdxs ...int) (*rig, func() error, error) {
 	return r, release, nil
 }
 
-func newRigWithGate(gate chan struct{}, keyIdxs ...int) (*rig, error) {
+func newRigWithGate(gate chan struct{}, anon bool, keyIdxs ...int) (*rig, error) {
 	ctx, cancel := context.WithCancel(context.Background())
 	r := &rig{ctx: ctx, cancel: cancel}
 	tb, err := testbed.NewTestbed(ctx, quietLog, testbed.TestbedOpts{NoEcho: true, PrivKey: gen.Key(keyIdxs[0])})
@@ -137,9 +143,13 @@ func newRigWithGate(gate chan struct{}, keyIdxs ...int) (*rig, error) {
 		hch := make(chan transport.TransportHandler, 1)
 		n.hch = hch
 		n.tpt = &fakeTransport{uuid: uint64(7000 + i), pid: n.peerID}
+		ctrlPeerID := n.peerID
+		if anon {
+			ctrlPeerID = ""
+		}
 		n.ctrl = transport_controller.NewController(quietLog, tb.Bus,
 			controller.NewInfo("verif/fake-transport", semver.MustParse("0.0.1"), "fake"),
-			n.peerID, false,
+			ctrlPeerID, false,
 			func(ctx context.Context, le *logrus.Entry, pkey crypto.PrivKey, handler transport.TransportHandler) (transport.Transport, error) {
 				select {
 				case <-gate:
